@@ -404,6 +404,26 @@ func main() {
 		res.St.Outcomes = map[string]int{}
 		res.St.Complete = true
 		deadline := time.Now().Add(tbudget)
+		if si == 0 {
+			// determinism self-check: the same history twice must give the same canonical state
+			nodes, limits = 3, budget{99, 99, 99, 99, 99, 99, 99, 99}
+			probe := []event{{Kind: "timeout", Node: 1}, {Kind: "crashat", Node: 2, After: true}, {Kind: "timeout", Node: 3}}
+			w1, _, _ := build(probe)
+			for i := 0; i < 3 && len(w1.Net) > 0; i++ {
+				w1.Deliver(w1.SortedNet()[0], false)
+			}
+			c1 := w1.Canon()
+			w1.Close()
+			w2, _, _ := build(probe)
+			for i := 0; i < 3 && len(w2.Net) > 0; i++ {
+				w2.Deliver(w2.SortedNet()[0], false)
+			}
+			c2 := w2.Canon()
+			w2.Close()
+			if c1 != c2 {
+				ev.Tool("the simulated cluster is not deterministic: two runs of the same history differ\n%s\n%s", c1, c2)
+			}
+		}
 		for _, ph := range phases(thorough) {
 			ph := ph
 			nodes, limits = ph.nodes, ph.lim
